@@ -39,6 +39,9 @@ def curated():
     S.append(inst("strided-read-y", 3, 3, 2, 1, 0, 0, (0, 0, 1, 1, 3, 3), (0, 0, 1, 2, 3, 2)))
     S.append(inst("strided-read-x", 3, 3, 1, 1, 0, 1, (0, 0, 1, 1, 3, 3), (1, 0, 2, 1, 1, 3)))
     S.append(inst("strided-write-second", 3, 3, 2, 1, 0, 1, (0, 0, 2, 2, 2, 2), (0, 0, 1, 1, 3, 3), fill=1, second=(1, 0, 2, 2)))
+    # first write to a NEW image sub-sampled in one direction only (fill lines / fill pixels between the written ones)
+    S.append(inst("strided-first-write-y", 2, 3, 1, 1, 0, 0, (0, 0, 1, 2, 2, 2), (0, 0, 1, 1, 2, 3), fill=1))
+    S.append(inst("strided-first-write-x", 3, 2, 2, 1, 0, 0, (0, 0, 2, 1, 2, 2), (0, 0, 1, 1, 3, 2), fill=1))
     S.append(inst("noreopen-subregion", 3, 3, 3, 1, 0, 2, (0, 0, 1, 1, 3, 3), (1, 1, 1, 1, 2, 2), reopen=0))
     return S
 
